@@ -17,6 +17,7 @@ LEVEL_TEXT = (
     'acknowledged command in order with the expected done/error, and every neighbor Adj-RIB-Out == the table obtained by applying only '
     'accepted commands to only the neighbors an independent selector matcher selects.'
     ' API version 4 runs mixing both spellings, groups with a failing member, multi-line groups, a neighbor served by a second silent helper, and a helper that dies with an unterminated line behind it and is respawned.'
+    ' `announce eor`, a neighbor whose peer refuses every connection, one-line groups opened by an `attributes` line whose extended communities every member must carry (and only those).'
 )
 LEVEL_NOTE = 'trusts: the reference selector matcher and command-outcome table in this file (only commands with an unambiguous outcome are judged), simulated pipes'
 DESIGN_REF = 'DESIGN.md section 5, C14'
@@ -160,7 +161,8 @@ def generate(rng, tier: str, index: int) -> dict:
             if rng.chance(0.4):
                 # a member that parses but cannot be announced (no next hop), one that does not parse, an unknown action:
                 # each must leave every RIB alone while the other members are served
-                bad = rng.choice([f'announce route 10.78.{len(cmds) % 250}.0/24 med 100', f'announce route 10.78.{len(cmds) % 250}.0/33 next-hop 10.0.0.9', f'frobnicate route 10.78.{len(cmds) % 250}.0/24 next-hop 10.0.0.9'])
+                bad = rng.choice([f'announce route 10.78.{len(cmds) % 250}.0/24 med 100', f'announce route 10.78.{len(cmds) % 250}.0/33 next-hop 10.0.0.9', f'frobnicate route 10.78.{len(cmds) % 250}.0/24 next-hop 10.0.0.9',
+                                  f'announce ipv4 nlri-mpls 10.78.{len(cmds) % 250}.0/24 next-hop 10.0.0.9'])  # (the last one parses and is refused by the validation step: no label)
                 subs.insert(rng.randint(0, len(subs)), {'op': 'bad', 'text': bad})
             cmds.append({'k': rng.choice(['group', 'group', 'mgroup']), 'sel': gen_selector(rng, nbrs), 'subs': subs})
             f = rng.fork('group-shared')  # (a side stream: the plans generated so far keep their draws)
@@ -322,13 +324,13 @@ def execute(plan: dict) -> dict:
     speakers = []
     confs = []
     for nb in nbrs:
-        speakers.append(Speaker(w, f'p{nb["idx"]}', nb['peer_ip'], nb['peer_as'], f'10.9.0.{nb["idx"] + 1}', local_of(nb), hold=90, caps=speaker_caps({'asn': nb['peer_as']})))
+        speakers.append(Speaker(w, f'p{nb["idx"]}', nb['peer_ip'], nb['peer_as'], f'10.9.0.{nb["idx"] + 1}', local_of(nb), hold=90, caps=speaker_caps({'asn': nb['peer_as'], 'families': [(1, 1), (1, 4)]})))
         if nb.get('down'):
             speakers[-1].accept_mode = 'refuse'
         confs.append(
             {
                 'peer_ip': nb['peer_ip'], 'local_ip': local_of(nb), 'local_as': nb['local_as'], 'peer_as': nb['peer_as'], 'router_id': nb['router_id'], 'hold': 90,
-                'families': [(1, 1)], 'adj-rib-out': True, 'api': {'processes': [nb.get('svc', 'h1')]},
+                'families': [(1, 1), (1, 4)], 'adj-rib-out': True, 'api': {'processes': [nb.get('svc', 'h1')]},
             }
         )  # fmt: skip
     w.boot(config_text([{'name': 'h1'}] + ([{'name': 'h2'}] if any(nb.get('svc') == 'h2' for nb in nbrs) else []), confs))
